@@ -35,6 +35,14 @@ vars == <<sc, pc, obs, json, flushed, status, fault, copyfail, moveok>>
 
 Call(c, w, n) == [c |-> c, w |-> w, n |-> n]
 
+\* Bytes of a FINISHED earlier stream of the same loom / pid / tid that is in the final thread directory when
+\* the thread starts (0 = none): left by an earlier run into the same trace directory, or by an earlier
+\* thread of this very process that had the same thread id.
+StaleOf(s) == IF "stale" \in DOMAIN s THEN s.stale ELSE 0
+\* TRUE: thread start removes such metadata from the final directory (fixed code); FALSE: pinned commit
+UnlinkStale == TRUE
+No == FALSE
+
 RECURSIVE SumTo(_, _)
 SumTo(s, k) == IF k = 0 THEN 0 ELSE s[k] + SumTo(s, k - 1)
 Total(s) == SumTo(s, Len(s))
@@ -61,7 +69,7 @@ Script(s) ==
    <<Call("mkdirs", w, 0)>>
    \* an old stream.json in the final directory is removed before anything is written
    \* ("fix: rt: remove stale metadata from the final directory when a thread starts")
-   \o (IF s.mode = "tmp" THEN <<Call("unlink_json", "fin", 0)>> ELSE <<>>)
+   \o (IF s.mode = "tmp" /\ UnlinkStale THEN <<Call("unlink_json", "fin", 0)>> ELSE <<>>)
    \o <<Call("open_obs", w, 0), Call("write_obs", w, 8),
      Call("open_json", w, 0), Call("write_json_init", w, 0), Call("close_json", w, 0)>>
    \o [i \in 1..Len(s.flushes) |-> Call("write_obs", w, s.flushes[i])]
@@ -86,13 +94,14 @@ Cur == Script(sc)[pc]
 
 -----------------------------------------------------------------------------
 Init(s) == /\ sc = s /\ pc = 1
-           /\ obs = [tmp |-> -1, fin |-> -1] /\ json = [tmp |-> "absent", fin |-> "absent"]
+           /\ obs = [tmp |-> -1, fin |-> IF StaleOf(s) > 0 THEN StaleOf(s) ELSE -1]
+           /\ json = [tmp |-> "absent", fin |-> IF StaleOf(s) > 0 THEN "fin" ELSE "absent"]
            /\ flushed = 0 /\ status = "running" /\ fault = 0 /\ copyfail = FALSE /\ moveok = TRUE
 
 \* effect of a successful call
 Effect(k) ==
    LET w == k.w IN
-   CASE k.c = "open_obs"        -> /\ obs' = [obs EXCEPT ![w] = IF @ = -1 THEN 0 ELSE @]
+   CASE k.c = "open_obs"        -> /\ obs' = [obs EXCEPT ![w] = 0]     \* created or truncated ("fix: rt: truncate ...")
                                    /\ UNCHANGED <<json, flushed, copyfail, moveok>>
      [] k.c = "write_obs"       -> /\ obs' = [obs EXCEPT ![w] = @ + k.n] /\ flushed' = flushed + k.n
                                    /\ UNCHANGED <<json, copyfail, moveok>>
@@ -179,7 +188,7 @@ NextNoFault == Step \/ Crash
    counts with that property (for the full stream: 8 + Total(flushes)).   *)
 FullBytes == 8 + Total(sc.flushes)
 Visible(d)    == json[d] # "absent"
-EmuAccepts(d) == json[d] = "fin" /\ obs[d] \in sc.accept
+EmuAccepts(d) == json[d] = "fin" /\ (obs[d] \in sc.accept \/ (StaleOf(sc) > 0 /\ obs[d] = StaleOf(sc)))
 Complete(d)   == json[d] = "fin" /\ obs[d] = FullBytes
 
 \* C09a: a killed run is never accepted with flushed events missing
@@ -197,12 +206,12 @@ C10c == status = "returned" => \A d \in {"tmp", "fin"} : EmuAccepts(d) => obs[d]
 
 -----------------------------------------------------------------------------
 (* Bounded family for TLC *)
-Scen(m, f, c, r, a) == [mode |-> m, flushes |-> f, chunk |-> c, rdorder |-> r, accept |-> a]
+Scen(m, f, c, r, a) == [mode |-> m, flushes |-> f, chunk |-> c, rdorder |-> r, accept |-> a, stale |-> 0]
 Scenarios ==
-   {Scen(m, f, c, r, {8 + Total(f)} \cup x) :
+   {[Scen(m, f, c, r, {8 + Total(f)} \cup x) EXCEPT !.stale = st] :
       m \in {"direct", "tmp"}, f \in {<<3>>, <<2, 3>>, <<4, 4>>}, c \in {2, 4, 100},
       r \in {"json_first", "obs_first"},
-      x \in {{}} \cup {{p} : p \in 9..15}}
+      x \in {{}} \cup {{p} : p \in 9..15}, st \in {0, 9, 20}}
 MCInit == \E s \in Scenarios : Init(s)
 SpecCrash == MCInit /\ [][NextNoFault]_vars
 SpecFault == MCInit /\ [][Next]_vars
